@@ -271,6 +271,17 @@ def run(ctx):
         ctx.case(("large", "mixed"), {"source": ss, "target": ts, "tb": 0.01, "fb": 100.0})
         judge(ctx, ss, ts, 0.01, 100.0)
     run_long_lists(ctx)
+    # near ties: two (or three) near-duplicate detections against near-duplicate annotations; the candidate pairings'
+    # totals differ by 1e-9 .. 1e-7 -- far above double rounding (1e-16), far below single precision
+    for _ in range(ctx.scale(150, 600)):
+        k = rng.choice([2, 2, 3])
+        c0, w = rng.choice([10.0, 100.0, 3.5]), rng.choice([2.0, 0.5])
+        e = lambda: rng.uniform(-1, 1) * rng.choice([1e-7, 3e-7, 1e-6])
+        mk = lambda off: {"type": "TimeInterval", "coordinates": [c0 + off + e(), c0 + off + w + e()]}
+        ss = [mk((-1) ** i * 0.025 * w * (1 + i // 2)) for i in range(k)]
+        ts = [mk(0.0) for _ in range(k)]
+        ctx.case((k, k, "near_ties", "intervals"), {"source": ss, "target": ts, "tb": 0.01, "fb": 100.0})
+        judge(ctx, ss, ts, 0.01, 100.0)
 
 
 def run_long_lists(ctx):
